@@ -77,6 +77,21 @@ P = {
   COMMON_NOTE + "Not expressible in the model: memory exhaustion, stack overflow in encoding/json on pathological nesting (Go limits nesting to 10000), runtime faults outside the modelled panic sites; these are covered by the byte-mutation search only.",
   "Lean 4 proof (explicit panic outcomes unreachable, totality) + outcome-class correspondence + byte-mutation crash search",
   "DESIGN.md §5 C15"),
+ "C10": (True,
+  "Lean: every Go map the implementation ranges over is an explicit list in the model; theorems give invariance under ANY permutation for each of them (verifier keys, loaded links per step incl. the number counted, reference link of the reduction, artifact queue, parameter dictionary, constraint values), and a history of verifications is the pointwise application of one pure function. Every run verifies generated chains (mixed key/certificate steps, parameterised rules) 2-4 times on the SAME in-memory objects with equal/different parameters, every history repeated 4x (12x thorough), serialising the caller's layout, keys and signatures before and after each call.",
+  COMMON_NOTE + "Purity of the model is by construction (effects are explicit outputs); that the Go code has no further hidden state is what the repeated-history correspondence checks.",
+  "Lean 4 proof (permutation invariance per map, pure-function histories) + repeated-history differential correspondence",
+  "DESIGN.md §5 C10"),
+ "C13": (True,
+  "PARTIAL. Lean model of RecordArtifact(s): normalisation on bytes, lexical walk with exclusion oracle, file symlinks always / directory symlinks on request, prefix stripping, uniqueness, errors, match-products. Proved: normalisation laws (no CR, CRLF and CR to one LF, idempotent, identity without CR), per-node walk rules, error cases, panic-freedom, match-products = three-way difference. Every run materialises generated trees (depth <= 4, empty/binary/CR-LF contents, symlinks to files and directories, dangling links, several roots incl. unclean and missing ones), all algorithm subsets plus unknown names, both switches, exclude patterns, strip prefixes, and compares RecordArtifacts with the model fed with crypto/sha* digests; normalisation against the model's byte function; match-products; before/after discipline of run and record start/stop; symlink cycles (no crash/hang).",
+  COMMON_NOTE + "Correspondence only: completeness of the walk over all trees (no induction proof yet), go-pathspec pattern semantics (oracle), symlink cycles, permissions, Windows paths. One recorded finding (F19: prefix not stripped from symlink keys).",
+  "Lean 4 proof (normalisation, walk rules, set algebra) + differential correspondence on materialised directory trees",
+  "DESIGN.md §5 C13"),
+ "C14": (True,
+  "PARTIAL. Lean transition system of a child writing to two bounded pipes and a parent draining them: proved for ALL volumes, capacities > 0 and schedules that concurrent draining is never stuck, every run is finite, a returned call holds exactly the bytes written; the sequential discipline of the original code deadlocks (kernel-checked witness). Every run executes real commands writing 0, 1, cap-1, cap, cap+1, 4*cap (thorough: 4 MiB) bytes to either stream in any order, ending with status 0..255 or SIGKILL, under a 20 s deadline and compares completion, byte counts and return value.",
+  COMMON_NOTE + "Not expressible: kernel pipe semantics, scheduler fairness, that os/exec implements the concurrent discipline (tie only).",
+  "Lean 4 proof (deadlock freedom and completeness of the pipe system) + real commands under deadline",
+  "DESIGN.md §5 C14"),
 }
 
 ALL = ["C%02d" % i for i in range(1, 21)]
